@@ -607,9 +607,10 @@ def run(chk, replay=None):
         guarded(zt_case, terms, 'generated')
 
     # ------------------------------------------------------------------ izt / filter stream
-    def izt_case(b, a, poles, zform=None):
+    def izt_case(b, a, poles, zform=None, pairs=None, cpm=0):
+        """pairs: the `pairs=` option of IZT (None = default True); cpm: multiplicity of a complex-conjugate pole pair in a (0 = none)"""
         newcase()
-        key = ('izt', tuple(b), tuple(a))
+        key = ('izt', tuple(b), tuple(a), pairs)
         bs, as_ = lst(b), lst(a)
         chk.count('izt.poles', 'n=%d repeated=%s' % (len(poles), len(set(poles)) < len(poles)))
         z = Lc.lcapy.discretetime.z
@@ -619,7 +620,7 @@ def run(chk, replay=None):
             Hs = Lc.rat(c_) * Lc.z ** m_ / (Lc.z - Lc.rat(p_)) ** k_
         try:
             H = Lc.lcapy.zexpr(Hs)
-            h = H.IZT(causal=True)
+            h = H.IZT(causal=True) if pairs is None else H.IZT(causal=True, pairs=pairs)
             hv = [Lc.tofrac(h(i).sympy) for i in range(NS + 1)]
         except Exception as ex:   # noqa
             chk.count('izt.lcapy-error', type(ex).__name__)
@@ -636,11 +637,14 @@ def run(chk, replay=None):
             mono = sum(1 for c in b if c != 0) == 1
             kpow = len(a) - 1
             shortcut = mono and kpow >= 2 and [c / a[0] for c in a] == poly_from_roots([Fraction(1)] * kpow)
-            key_ = {'kind': 'izt', 'repeated': len(set(poles)) < len(poles)}
+            key_ = {'kind': 'izt', 'repeated': len(set(poles)) < len(poles) or cpm > 1}
+            if cpm:
+                key_['complex_pair_multiplicity'] = cpm
+                key_['pairs'] = pairs is not False
             if shortcut:
                 key_['cause'] = 'unit-step-shortcut-repeated-pole'
             cex(key_,
-                {'input': {'b': bs, 'a': as_, 'H': str(Hs), 'zform': ([fstr(zform[0]), zform[1], fstr(zform[2]), zform[3]] if zform else None)},
+                {'input': {'b': bs, 'a': as_, 'H': str(Hs), 'pairs': pairs, 'cpm': cpm, 'zform': ([fstr(zform[0]), zform[1], fstr(zform[2]), zform[3]] if zform else None)},
                  'lcapy': {'h': str(h), 'samples': lst(hv)}, 'model': mv,
                  'spec': 'A*h = B coefficient-wise: ' + r},
                 'inverse z-transform samples do not satisfy A*h = B')
@@ -768,6 +772,34 @@ def run(chk, replay=None):
                     c = rng.choice([Fraction(1), rnd_frac(rng)])
                     chk.count('izt.directed', 'p=%s k=%d' % ('1' if pole == 1 else 'other', kpow))
                     guarded(izt_case, [Fraction(0)] * j + [c], poly_from_roots([pole] * kpow), [pole] * kpow, zform=(c, kpow - j, pole, kpow))
+
+    # directed family: complex-conjugate pole pairs of multiplicity 1..4 (Gaussian-rational poles c(1+-j), c(-1+-j), +-jc, so that the
+    # samples are certified rational), optionally with a real pole, on both routes pairs=True / pairs=False; judged coefficient-wise
+    # (A*h = B, the long-division spec needs no roots), n = 0..NS
+    if gen and cur[0]:
+        def pmul_(p_, q_):
+            r_ = [Fraction(0)] * (len(p_) + len(q_) - 1)
+            for i_, x_ in enumerate(p_):
+                for j_, y_ in enumerate(q_):
+                    r_[i_ + j_] += x_ * y_
+            return r_
+        combos = [(m_, pr_) for m_ in (1, 2, 3, 4) for pr_ in (True, False)]
+        if not quick:
+            combos = combos * 4
+        for (m_, pr_) in combos:
+            c_ = rng.choice([Fraction(1, 2), Fraction(1), Fraction(-1, 2), Fraction(3, 2), Fraction(1, 3)])
+            re_, im_ = rng.choice([(c_, c_), (-c_, c_), (Fraction(0), c_)])
+            quad = [Fraction(1), -2 * re_, re_ * re_ + im_ * im_]          # (1 - p w)(1 - conj(p) w)
+            a_ = [Fraction(1)]
+            for _ in range(m_):
+                a_ = pmul_(a_, quad)
+            if rng.random() < 0.4:
+                a_ = pmul_(a_, [Fraction(1), -rnd_frac(rng, -2, 2, 3)])
+            b_ = [rnd_frac(rng, -4, 4, 2, nonzero=False) for _ in range(rng.randint(1, 3))]
+            if all(v_ == 0 for v_ in b_):
+                b_[0] = Fraction(1)
+            chk.count('izt.complex-pairs', 'multiplicity %d pairs=%s' % (m_, pr_))
+            guarded(izt_case, b_, a_, [], pairs=pr_, cpm=m_)
 
     # ------------------------------------------------------------------ response stream
     def resp_case(b, a, ic, xspec, n1):
@@ -1474,6 +1506,28 @@ def run(chk, replay=None):
             cex({'kind': 'seq-izt-zt', 'origin': org},
                 {'input': {'vals': lst(vals), 'n0': n0}, 'lcapy': {'n': bn, 'vals': lst(bv)}, 'spec': 'IZT(ZT(x)) = x with the same indices'},
                 'sequence IZT(ZT(x)) does not return the sequence')
+        # zeropad(M) is the same sequence: as many indices as values, contiguous from the first index, same x[n] everywhere
+        # (Lean: x * delta = x through conv.spec with h = {1})
+        M_ = 1 + state['case'] % 3
+        try:
+            zp = x.zeropad(M_)
+            pn, pv = [int(v) for v in zp.n], [Lc.tofrac(v.sympy) for v in zp.vals]
+        except Exception as ex:   # noqa
+            chk.count('seqorg.lcapy-error', 'zeropad:' + type(ex).__name__)
+            pn = None
+        if pn is not None:
+            chk.count('seqorg.zeropad', 'done')
+            bad = None
+            if len(pn) != len(pv) or pn != list(range(n0, n0 + len(pv))) or len(pv) != len(vals) + M_:
+                bad = 'indices %s for %d values (expected %d..%d)' % (pn, len(pv), n0, n0 + len(vals) + M_ - 1)
+            else:
+                r = drv.ask1('conv.spec %d %s %d %s 0 1' % (n0, lst(pv), n0, lst(vals)))
+                if r != 'ok':
+                    bad = r
+            if bad:
+                cex({'kind': 'zeropad', 'origin': org}, {'input': {'vals': lst(vals), 'n0': n0, 'M': M_}, 'lcapy': {'n': pn, 'vals': lst(pv)},
+                                                       'spec': 'zeropad(M) has len(vals) + M values at n0, n0+1, ... and the same samples: ' + bad},
+                    'Sequence.zeropad does not keep the sequence')
         # DFT / IDFT of the sequence (periodic reading of the indices): model + defining sum in F_P, round trip
         N = len(vals)
         if (FP - 1) % N == 0 and (not quick or state['case'] % 2 == 0):
@@ -1865,6 +1919,90 @@ def run(chk, replay=None):
                 e = Lc.rat(rnd_frac(rng)) * S.exp(S.I * S.pi * Lc.rat(r) * n_) if rng.random() < 0.6 else S.Integer(rng.randint(1, 4))
                 guarded(idtft_case, e, dom, -3, 5, 'complex exponential' if e.has(n_) else 'constant', bool(e.has(n_)))
 
+
+    # ------------------------------------------------------------------ undefined functions x(n), X(k), X(f): products and shifts
+    def undef_case(which):
+        newcase()
+        key = ('undef', which)
+        chk.count('undef.family', which)
+        x_, y_ = S.Function('x'), S.Function('y')
+        X_, Y_ = S.Function('X'), S.Function('Y')
+        if which in ('IDFT X*Y', 'DFT x*y'):
+            N = rng.choice([3, 4, 5])
+            xs = [rnd_frac(rng, -3, 3, 2, nonzero=False) for _ in range(N)]
+            ys = [rnd_frac(rng, -3, 3, 2, nonzero=False) for _ in range(N)]
+            w = zeta(N, -1)
+            fx, fy = [fp_of_frac(v) for v in xs], [fp_of_frac(v) for v in ys]
+            sumlit = lambda q, vs: int(drv.ask1('dft.sumlit %d %s' % (q, ','.join(str(v) for v in vs))))   # noqa
+            Xv = [sumlit(pow(w, k_, FP), fx) for k_ in range(N)]
+            Yv = [sumlit(pow(w, k_, FP), fy) for k_ in range(N)]
+            try:
+                if which == 'IDFT X*Y':
+                    res = Lc.lcapy.kexpr('X(k)*Y(k)').IDFT(N=N).sympy
+                    var, fa, fb, va, vb = Lc.n, x_, y_, xs, ys
+                else:
+                    res = Lc.lcapy.nexpr('x(n)*y(n)').DFT(N=N).sympy
+                    var, fa, fb = Lc.k, X_, Y_
+                got = []
+                for i in range(N):
+                    e_i = res.subs(var, i).doit()
+                    if which == 'IDFT X*Y':
+                        e_i = e_i.replace(fa, lambda a_: Lc.rat(va[int(a_) % N])).replace(fb, lambda a_: Lc.rat(vb[int(a_) % N]))
+                        got.append(fp_of_frac(Lc.tofrac(e_i)))
+                    else:
+                        # X(j), Y(j) -> their F_P values through fresh symbols
+                        syms = {}
+                        def sub_(fn, vals_):    # noqa
+                            def f_(a_):
+                                nm = S.Symbol('%s_%d' % (fn, int(a_) % N))
+                                syms[nm] = vals_[int(a_) % N]
+                                return nm
+                            return f_
+                        e_i = e_i.replace(fa, sub_('X', Xv)).replace(fb, sub_('Y', Yv))
+                        got.append(FpEval(Lc, {}, fpenv=syms).ev(e_i))
+            except Exception as ex:   # noqa
+                chk.count('undef.lcapy-error', which + ':' + type(ex).__name__)
+                chk.case(key, False)
+                return
+            chk.case(key, True)
+            invN = pow(N, FP - 2, FP)
+            if which == 'IDFT X*Y':
+                P = [Xv[k_] * Yv[k_] % FP for k_ in range(N)]
+                want = [sumlit(pow(w, (-i) % N, FP), P) * invN % FP for i in range(N)]      # (1/N) sum_k X[k] Y[k] w^{-kn}
+            else:
+                want = [sumlit(pow(w, k_, FP), [a_ * b_ % FP for a_, b_ in zip(fx, fy)]) for k_ in range(N)]
+            if got != want:
+                cex({'kind': 'idft' if which == 'IDFT X*Y' else 'dft', 'undefined_functions': True},
+                    {'input': {'expr': which, 'N': N, 'x': lst(xs), 'y': lst(ys)}, 'lcapy': str(res), 'lcapy_values_mod_P': got, 'spec_values_mod_P': want,
+                     'spec': 'the formula, with x, y (X, Y = their DFT sums) substituted, is the %s of the product (defining sums by Lean, F_P)' % which.split()[0]},
+                    'transform of a product of undefined functions is not the (scaled) circular convolution')
+            return
+        from lcapy.sym import dt as dts, fsym
+        sh = rng.randint(1, 4)
+        try:
+            if which == 'IDTFT X(f - f0)':
+                res = Lc.lcapy.fexpr('X(f - %d)' % sh).IDTFT().sympy
+                want = x_(Lc.n) * S.exp(2 * S.I * S.pi * sh * Lc.n * dts)                   # modulation: X(f - f0) <-> x[n] e^{j 2 pi f0 n dt}
+                bad = res.has(fsym) or S.simplify(res - want) != 0
+            else:
+                res = Lc.lcapy.nexpr('x(n - %d)' % sh).DTFT(images=0).sympy
+                want = X_(fsym) * S.exp(-2 * S.I * S.pi * fsym * dts * sh)                # delay: x[n - m] <-> X(f) e^{-j 2 pi f m dt}
+                bad = S.simplify(res - want) != 0
+        except Exception as ex:   # noqa
+            chk.count('undef.lcapy-error', which + ':' + type(ex).__name__)
+            chk.case(key, False)
+            return
+        chk.case(key, True)
+        if bad:
+            cex({'kind': 'idtft' if which.startswith('IDTFT') else 'dtft', 'undefined_functions': True},
+                {'input': {'expr': which, 'shift': sh}, 'lcapy': str(res), 'spec': 'shift / modulation theorem (dtft_shift, dtft_modulate): ' + str(want)},
+                'transform of a shifted undefined function does not follow the shift theorem')
+
+    stream('undef')
+    if gen and cur[0]:
+        for which in ['IDFT X*Y', 'DFT x*y', 'IDTFT X(f - f0)', 'DTFT x(n - m)'] * (1 if quick else 3):
+            guarded(undef_case, which)
+
     stream('disc')
     METHODS = ['bilinear', 'forward-euler', 'backward-euler', 'gbf', 'simpson', 'tustin', 'euler', 'backward-diff']
     for i in (range(24 if quick else 160) if (gen and cur[0]) else []):
@@ -1900,7 +2038,7 @@ def run(chk, replay=None):
             zf = None
             if inp.get('zform'):
                 zf = (Fraction(inp['zform'][0]), int(inp['zform'][1]), Fraction(inp['zform'][2]), int(inp['zform'][3]))
-            izt_case(bb, aa, [], zform=zf)
+            izt_case(bb, aa, [], zform=zf, pairs=inp.get('pairs'), cpm=int(inp.get('cpm') or 0))
         elif kind == 'response':
             xt = inp['x'].split()
             xs = ('lit', int(xt[1]), flist(xt[2])) if xt[0] == 'lit' else ('sig', parse_sig(inp['x'][4:]))
